@@ -843,7 +843,7 @@ def run(ctx):
     corpus = corr.load_corpus("C09", "timers")
     tm.run(corpus, "corpus")
     rng = ctx.rng
-    n = ctx.n(500, 4000)
+    n = ctx.n(800, 20000)
     cases = [gen_case(rng) for _ in range(n)]
     stats = {"scenarios": 0, "kinds": {}, "term_kinds": {}, "outcomes": {}, "api_calls_traced": 0, "timer_checks": 0, "model_ops": {},
              "anomaly_timer_in_past_runs": 0, "busy_loop_firings": 0, "tracing_stopped": {}, "skipped_actions": 0, "injected_close_started_closing": {}, "closing_datagrams_seen": 0,
